@@ -990,7 +990,7 @@ def streams(ctx):
                               'at every depth; result, failure, post-call arguments, globals and log compared by value. '
                               'non-trivial = the argument list contains at least one integral number')
     rng = ctx.rng('libnum')
-    per_fn = ctx.scale(110, 3000)
+    per_fn = ctx.scale(110, 2500)
     modelled_cases = []
     for fname in names:
         for _ in range(per_fn * (3 if fname in MODELLED or fname in ('mathRound', 'numberToFixed', 'datetimeNew', 'jsonStringify') else 1)):
@@ -1011,7 +1011,7 @@ def streams(ctx):
                               'counters, index arithmetic with arrayLength/stringIndexOf results) executed as parsed (float literals) and with '
                               'every integral literal of the parsed model as int; result, globals, log, statement count compared')
     rng = ctx.rng('script')
-    for _ in range(ctx.scale(400, 12000)):
+    for _ in range(ctx.scale(400, 10000)):
         check_case(ctx, lim, st, {'kind': 'script', 'text': gen_script(rng)}, 'script')
 
     # --- correspondence: implementation vs Lean LibH for both spellings (+ the abstract spec)
